@@ -420,3 +420,71 @@ def move_steps(sw, paths, quick, rnd):
                     piece = n.cut() if how == 'cut' else n.copy()
                     getattr(b, fld).append(piece)
                 sw.step(sp, f'{how}()->append to {bp}.{fld}', fn)
+
+
+ARGS_AS = ['pos', 'arg', 'kw', 'arg_only', 'kw_only', 'pos_maybe', 'arg_maybe', 'kw_maybe']
+
+
+def refusal_steps(sw, paths, quick, rnd):
+    """C12: requests that are refused by an ordering / category rule AFTER the handler has started, and code objects that
+    may not be used as code at all.
+      * every cut of a slice of an `arguments` node with every `args_as` conversion (a conversion that is impossible for
+        the pieces cut out - `*a` as positional-only ... - is refused);
+      * a consumed tree, a non-root node and the target's own root passed as code to replace() / put_slice(), for sampled
+        nodes AND for the root node itself (root replacement is a separate code path)."""
+    FST = sw.FST
+    root = sw.fresh()
+    for path, cat, cls in paths:
+        if cls != 'arguments':
+            continue
+        n = follow(root, path)
+        try:
+            ln = len(n._cached_allargs())
+        except Exception:
+            continue
+        rng = [(i, j) for i in range(ln + 1) for j in range(i + 1, ln + 1)]
+        if quick and len(rng) > 4:
+            rng = [(0, ln)] + rnd.sample(rng, 3)
+        for (i, j) in rng:
+            for aa in ARGS_AS:
+                sw.step(path, f'get_slice({i}, {j}, cut=True, args_as={aa!r})',
+                        lambda r, n, i=i, j=j, aa=aa: n.get_slice(i, j, cut=True, args_as=aa))
+
+    def consumed():
+        d = FST('zz', 'exec')
+        FST('k = 5', 'exec').body[0].replace(d)
+        return d
+
+    def nonroot():
+        return FST('yy = 1\nxx = 2', 'exec').body[1]
+    kinds = [('consumed tree', lambda r: consumed()), ('non-root node', lambda r: nonroot()), ('own root', lambda r: r)]
+    k = 3 if quick else 12
+    sel = [p for p, cat, cls in paths if cat in ('stmt', 'expr')]
+    sel = rnd.sample(sel, k) if len(sel) > k else sel
+    for path in sel:
+        for kn, mk in kinds:
+            sw.step(path, f'replace(<{kn}>)', lambda r, n, mk=mk: n.replace(mk(r)))
+            sw.step(path, f'replace(<{kn}>, one=False)', lambda r, n, mk=mk: n.replace(mk(r), one=False))
+    # the root node as target
+    from contracts.b_lib import dump as _dump
+    for kn, mk in kinds[:2]:
+        r = sw.fresh()
+        sw.ev += 1
+        src0, d0 = r.src, _dump(r.a)
+        desc = {'program': sw.name, 'path': [], 'op': f'root.replace(<{kn}>)', 'seq': None, 'slot': 'root'}
+        try:
+            r.replace(mk(r))
+        except Exception as e:
+            sw.counts['refused'] += 1
+            sw.distinct.add(('refused', (), desc['op']))
+            if r.a is None:
+                sw.fail('C12', f'root.replace@root:{sw.name}:{kn}.tree', f'root.replace(<{kn}>) raised {e!r} and left the '
+                        'root without a tree (root.a is None)', **desc)
+            else:
+                sw.check_c12(r, src0, d0, e, desc)
+            continue
+        sw.counts['ok'] += 1
+        v = c01_violation(r)
+        if v:
+            sw.fail('C12', f'root.replace@root:{sw.name}:{kn}.c01', f'root.replace(<{kn}>) was accepted and broke C01: {v}',
+                    **desc)
